@@ -47,9 +47,30 @@ def row_valued_in_once(recipe):
         if t.get("nick"):
             names.add(t["nick"])
 
+    # variables that may hold a row / reference (assigned anywhere in the recipe)
+    rowish_vars = set()
+
+    def all_stmts(stmts):
+        for st in stmts:
+            yield st
+            if st[0] == "obj":
+                yield from all_stmts(st[1]["friends"])
+                for _, d in st[1]["fields"]:
+                    if d[0] == "nested":
+                        yield from all_stmts([["obj", d[1]]])
+
+    for _ in range(3):
+        for st in all_stmts(recipe["stmts"]):
+            if st[0] == "var":
+                d = st[2]
+                if d[0] in ("ref", "nested") or (d[0] == "formula" and len(d[1]) == 1 and d[1][0][0] == "e"
+                                                 and (d[1][0][1][0] == "var" and (d[1][0][1][1] in names or d[1][0][1][1] in rowish_vars or d[1][0][1][1] == "this")
+                                                      or d[1][0][1][0] == "attr" and d[1][0][1][2] != "id")):
+                    rowish_vars.add(st[1])
+
     def expr_rowish(e):
         if e[0] == "var":
-            return e[1] in names or e[1] == "this"
+            return e[1] in names or e[1] == "this" or e[1] in rowish_vars
         if e[0] == "attr":
             return e[2] != "id"
         if e[0] in ("add", "sub", "mul"):
